@@ -2,7 +2,9 @@
    The residual expression is proved, for ANY number of inputs q and any number of accumulated segments, to be the sum of
    squares sum_k |Y_k - sum_i conj(H_i) X_ik|^2 for any coefficients H (real, >= 0), to lie in [0, S00] at any solution of the
    code's system T H = S, to vanish for exact static combinations and not to depend on the order of the inputs.
-   PARTIAL: invariance under invertible re-mixing and analytic = numeric solver are decided on the implementation. *)
+   A solution of T H = S minimises the residual, so every solution (analytic or numeric solver, solve or pinv) gives the same
+   residual, and invertibly re-mixing the inputs leaves the optimal residual unchanged.  All at exact (real) arithmetic;
+   that sympy / np.linalg return a solution of the stated system is validated numerically on the implementation. *)
 From Coq Require Import Reals List Permutation.
 From SK Require Import Systems SystemsGen.
 Theorem C15_residual_is_square_q1 : forall H X Y, resid1 H X Y = ofR (cabs2 (csub Y (cmul (cconj H) X))).
@@ -41,6 +43,22 @@ Proof. exact resid_exact_combination_zero. Qed.
 Theorem C15_input_order_independent : forall q H X (order : list nat), Permutation (seq 0 q) order ->
   csum (map (fun i => cmul (cconj (H i)) (X i)) order) = model_out q H X.
 Proof. exact model_out_order_independent. Qed.
+Theorem C15_solution_is_optimal : forall q Hs H segs,
+  (forall i, (i < q)%nat -> csumf (fun j => cmul (acc_T segs i j) (Hs j)) q = acc_S segs i) ->
+  (sum_sq q Hs segs <= sum_sq q H segs)%R.
+Proof. exact solution_is_optimal. Qed.
+Theorem C15_all_solutions_same_residual : forall q H1 H2 segs,
+  (forall i, (i < q)%nat -> csumf (fun j => cmul (acc_T segs i j) (H1 j)) q = acc_S segs i) ->
+  (forall i, (i < q)%nat -> csumf (fun j => cmul (acc_T segs i j) (H2 j)) q = acc_S segs i) ->
+  resid_expr q H1 (acc_S00 segs) (acc_S segs) (acc_T segs) = resid_expr q H2 (acc_S00 segs) (acc_S segs) (acc_T segs).
+Proof. exact residual_same_for_all_solutions. Qed.
+Theorem C15_remix_invariant : forall q M N Hs Hs' segs,
+  (forall a b, (a < q)%nat -> (b < q)%nat -> csumf (fun j => cmul (N a j) (M j b)) q = if Nat.eqb a b then ofR 1%R else czero) ->
+  (forall i, (i < q)%nat -> csumf (fun j => cmul (acc_T segs i j) (Hs j)) q = acc_S segs i) ->
+  (forall i, (i < q)%nat -> csumf (fun j => cmul (acc_T (remix_segs M q segs) i j) (Hs' j)) q = acc_S (remix_segs M q segs) i) ->
+  resid_expr q Hs' (acc_S00 (remix_segs M q segs)) (acc_S (remix_segs M q segs)) (acc_T (remix_segs M q segs))
+  = resid_expr q Hs (acc_S00 segs) (acc_S segs) (acc_T segs).
+Proof. exact remix_invariant. Qed.
 Theorem C15_expression_instance_q1 : forall (H X Y : C),
   resid_expr 1 (fun _ => H) (cabs2 Y) (fun _ => S_i0 X Y) (fun _ _ => T_ij X X) = resid1 H X Y.
 Proof. exact resid_expr_q1. Qed.
@@ -50,4 +68,5 @@ Theorem C15_expression_instance_q2 : forall (H1 H2 X1 X2 Y : C),
 Proof. exact resid_expr_q2. Qed.
 Print Assumptions C15_residual_is_square_q2.
 Print Assumptions C15_residual_at_solution_any_q.
+Print Assumptions C15_remix_invariant.
 Print Assumptions C15_siso_bounds.
